@@ -2,7 +2,8 @@
    operation of dimarray that the model covers, and its dispatch onto the model. *)
 From DA Require Import Prelude NDArray Array.
 From DA Require Import PyRT.
-From DA.Model Require Import Value Reshape Indexing Align.
+From Coq Require Import Qabs.
+From DA.Model Require Import Value Reshape Indexing Align Transform Flatten.
 Open Scope string_scope.
 Open Scope nat_scope.
 
@@ -30,6 +31,21 @@ Inductive op :=
 | OConcat (r : axref) (al sort : bool)
 | OSortAxis (r : axref)
 | OBroadcastArrays
+| OReduce (f : redfn) (skipna : bool) (ax : axarg)
+| OCum (prod skipna : bool) (r : axref)
+| ODiff (r : axref) (sc : scheme) (keepaxis : bool) (n : nat)
+| OArgExt (mx : bool) (r : option axref)
+| ODropna (r : axref) (minvalid : option nat)
+| OFillna (c : cell) (k : kind)
+| OSetna (vs : list cell)
+| OSetnaMask (m : list bool)
+| OTakeAxisLabel (ls : list label) (r : axref)
+| OTakeAxisPos (zs : list Z) (r : axref)
+| OCompressAxis (m : list bool) (r : axref)
+| OInterp (k : kind) (news : list label) (r : axref) (left right : cell)
+| OFlatten (rs : list axref) (as_set : bool) (insert : option Z)
+| OUnflatten
+| OReshape (newdims : list string)
 .
 
 Definition dflt_arr : darr := Arr [] [] KF [CNaN] [].
@@ -62,6 +78,22 @@ Definition apply_op (ins : list darr) (o : op) (a : darr) : res value :=
   | OConcat r al srt => let! x := concatenate ins r al srt in Ok (VArr x)
   | OSortAxis r => arr1 (sort_axis r) a
   | OBroadcastArrays => let! l := broadcast_arrays ins in Ok (VArrs l)
+  | OReduce f sk ax => reduce_any f sk ax a
+  | OCum p sk r => arr1 (cumulative p sk r) a
+  | ODiff r sc ka n => arr1 (diff r sc ka n) a
+  | OArgExt mx (Some r) => argext_axis mx r a
+  | OArgExt mx None => argext_all mx a
+  | ODropna r mv => arr1 (dropna r mv) a
+  | OFillna c k => arr1 (fillna c k) a
+  | OSetna vs => arr1 (setna vs) a
+  | OSetnaMask m => arr1 (setna_mask m) a
+  | OTakeAxisLabel ls r => arr1 (take_axis_label ls r) a
+  | OTakeAxisPos zs r => arr1 (take_axis_position zs r) a
+  | OCompressAxis m r => arr1 (fun a => let! i := axis_info a r in compress_axis m i a) a
+  | OInterp k news r l rr => arr1 (interp_axis k news r l rr) a
+  | OFlatten rs st ins => arr1 (flatten rs st ins) a
+  | OUnflatten => Ok (VArr (unflatten a))
+  | OReshape nd => arr1 (reshape nd) a
   end.
 
 (* a program: ops applied in sequence to input 0; every intermediate result must be an array *)
@@ -83,3 +115,24 @@ Definition run_case (c : case) : bool :=
   outcome_ok (run_ops ins ops (nth 0 ins dflt_arr)) e.
 Definition show_case (c : case) : res value :=
   let '(ins, ops, e) := c in run_ops ins ops (nth 0 ins dflt_arr).
+
+(* comparison with a relative tolerance for results of inexact floating-point arithmetic (mean,
+   var, std, interpolation): |model - implementation| <= 1e-9 * (1 + |model|) *)
+Definition cell_close (a b : cell) : bool :=
+  match a, b with
+  | CNum p, CNum q => Qle_bool (Qabs (p - q)) ((1 # 1000000000) * (1 + Qabs p))
+  | _, _ => cell_eqb a b
+  end.
+Definition nd_close (x y : nd) : bool :=
+  list_eqb Nat.eqb (sh x) (sh y) && kind_eqb (kd x) (kd y) && list_eqb cell_close (dat x) (dat y).
+Definition darr_close (x y : darr) : bool :=
+  list_eqb axis_eqb (axes x) (axes y) && nd_close (vals x) (vals y) && meta_eqb (attrs x) (attrs y).
+Definition outcome_close (r : res value) (e : expect) : bool :=
+  match r, e with
+  | Ok (VArr a), EVal (VArr b) => darr_close a b
+  | Ok (VCell a), EVal (VCell b) => cell_close a b
+  | _, _ => outcome_ok r e
+  end.
+Definition run_case_approx (c : case) : bool :=
+  let '(ins, ops, e) := c in
+  outcome_close (run_ops ins ops (nth 0 ins dflt_arr)) e.
